@@ -149,6 +149,7 @@ def run(ctx: Ctx):
     # ... and the rhs that is compared with Myokit's is printed by the NumPy backend: its function table names the
     # functions of the model
     printers.check_function_table(ctx, "R15.d", "numpy")
+    printers.check_equality_text(ctx, "R15.d")  # Myokit compares exactly; its literals arrive as sympy Floats
     printers.check_no_unvetted_override(ctx, "R15.d", "ode", skip=_pm15.NOT_FOR_WRITER)
     # ... and the rhs is generated by the NumPy backend: no print method of it may be replaced by an unvetted one
     printers.check_no_unvetted_override(ctx, "R15.d", "numpy", skip=("sign", "DiracDelta"))
